@@ -2,9 +2,9 @@ SPECIFICATION Spec
 CONSTANTS
   NLanes = 2
   LineSize = 8
-  Deviations <- NoDev
+  Deviations <- PerBatch
   Window = 2
-  LastIsLast = FALSE
+  LastIsLast = TRUE
   MemSize = 24
   MCOps <- OpsDw
   MCAddrs <- Addrs7
